@@ -114,8 +114,27 @@ func positions(n int, bounds []int, upto int) []int {
 // decodeCost is a deterministic proxy for the cost of one full decode of a
 // stream (bytes plus per-block reader set-up), used to keep the enumeration of
 // one case within a few seconds without reading a clock.
-func decodeCost(b *Built) int {
+func decodeCost(b *Built, reads []int) int {
 	cost := len(b.Stream) + len(b.Content)/4 + 2000
+	// a schedule of tiny reads makes one decode cost a call per few bytes
+	if len(reads) > 0 && len(b.Content) > 0 {
+		sum := 0
+		for _, l := range reads {
+			switch {
+			case l < 0:
+				sum += len(b.Content)
+			case l > len(b.Content):
+				sum += len(b.Content)
+			default:
+				sum += l
+			}
+		}
+		if sum < 1 {
+			sum = 1
+		}
+		calls := len(b.Content) * len(reads) / sum
+		cost += calls * 40
+	}
 	if b.Format == "xz" {
 		if f := xzSpans(b.Stream); f != nil {
 			for _, st := range f.Streams {
@@ -276,7 +295,7 @@ func runCutCase(c *RCase, x *sim.Ctx) *sim.Violation {
 	x.Shape(b.Format + ":" + c.Stream.Kind)
 	site, bounds := streamSites(b)
 	skip := validPrefixLens(&c.Stream, b)
-	cuts := positionsCost(len(b.Stream), bounds, len(b.Stream), decodeCost(b))
+	cuts := positionsCost(len(b.Stream), bounds, len(b.Stream), decodeCost(b, c.Reads))
 	if len(cuts) == len(b.Stream) {
 		x.Count("streams-with-every-cut-enumerated", 1)
 	} else {
